@@ -437,6 +437,7 @@ class Interp:
 
     def exec_stmt(self, s, env):
         self.ctx.lineno = getattr(s, "lineno", None)
+        self.ctx.stmt_tag = _stmt_tag(s)
         m = getattr(self, "st_" + type(s).__name__, None)
         if m is None:
             raise Unsupported(f"statement {type(s).__name__} at {env.qualname}:{s.lineno}")
@@ -1199,6 +1200,30 @@ class OpaqueCallable:
 
 # ----------------------------------------------------------------------------- helpers
 _CONTAINER_METHODS = {"get", "keys", "values", "items", "pop", "append", "extend", "copy", "update", "setdefault", "insert", "clear"}
+
+
+_TAGS = {}
+
+
+def _stmt_tag(s):
+    """stable identifier of a statement for obligation ids: a short hash of its own source text (headers only for compound
+    statements), so that ids survive line shifts and edits elsewhere in the file"""
+    k = id(s)
+    t = _TAGS.get(k)
+    if t is None:
+        import hashlib
+        if isinstance(s, (ast.If, ast.While)):
+            text = type(s).__name__ + " " + ast.unparse(s.test)
+        elif isinstance(s, ast.For):
+            text = "For " + ast.unparse(s.target) + " in " + ast.unparse(s.iter)
+        elif isinstance(s, ast.With):
+            text = "With " + ", ".join(ast.unparse(i) for i in s.items)
+        elif isinstance(s, (ast.FunctionDef, ast.ClassDef)):
+            text = type(s).__name__ + " " + s.name
+        else:
+            text = ast.unparse(s)
+        t = _TAGS[k] = (s, hashlib.sha1(text.encode()).hexdigest()[:6])
+    return t[1]
 
 
 def _term_size(t, cap):
